@@ -75,6 +75,7 @@ long xv_j;
 /* ghost constants (never assigned): bound to entry values by a requires clause of the contract under proof */
 uint8_t xv_g_sb_j, xv_g_sb_k, xv_g_rb_j;
 
+size_t xv_mc;              /* ghost offset whose byte the memcpy model copies (env/base.h) */
 size_t xv_keep;            /* ghost offset whose byte the ut_realloc model preserves (env/base.h) */
 
 /* ---- ghost: "the calling thread was put to sleep" (C05) */
@@ -95,6 +96,7 @@ static inline void xv_ghost_havoc(void)
     xv_g_sb_j = nondet_uchar(); xv_g_sb_k = nondet_uchar(); xv_g_rb_j = nondet_uchar();
     xv_blocked = nondet_bool();
     xv_keep = nondet_size_t();
+    xv_mc = nondet_size_t();
 }
 #endif
 
